@@ -47,5 +47,13 @@ func (s *PackScanner) loadIdxFile(idx billy.File) error {
 	s.off64Start = s.off32Start + (s.count * off32Size)
 	s.trailerStart = len(s.idxMmap) - 2*s.hashSize
 
+	// The object count comes from the file: every table it implies must lie
+	// within the mapping, before the trailer.
+	if s.count < 0 || s.off64Start < s.namesStart || s.off64Start > s.trailerStart {
+		s.idxMmap, s.idxCleanup = nil, nil
+		_ = cleanup()
+		return fmt.Errorf("malformed idx file: %d objects do not fit in %d bytes", s.count, len(mmap))
+	}
+
 	return nil
 }
